@@ -2,6 +2,7 @@ SPECIFICATION Spec
 CONSTANTS
   MaxOrder = 5
   MaxDim = 4
+  WithEmpty = TRUE
   HighOrders = {9, 10}
   MaxSize = 96
 INVARIANT SpecOK
